@@ -177,7 +177,9 @@ def run(chk):
             # code reproduces the damaged links exactly; damage it does not reproduce is a different defect, whatever the trigger
             expected = kc is not None and pm == 'ok'
             key = 'c19:' + kc if expected else 'c19:%s:%s' % (bad[0].split()[1].split('(')[0], ' '.join(c.split()[2:14])[:160])
-            if kle and not expected and all(b.split()[1].split(':')[-1].split('(')[0].split('@')[0] in ('prev-not-inverse', 'first-has-prev') for b in bad):
+            # ... attributed like the others: the trigger class AND the pointer-level transcription (addLineEnd / delLineEnd included) must
+            # reproduce the damaged links exactly
+            if kle and not expected and pm == 'ok' and all(b.split()[1].split(':')[-1].split('(')[0].split('@')[0] in ('prev-not-inverse', 'first-has-prev') for b in bad):
                 key, expected = 'c19:' + kle, True
             chk.violation(key, 'after linebreak/justify a line is no longer the same well-formed chain: %s%s' % (bad[0][:120], '' if expected else
                           (' (the links differ from what the recorded code does to them: %s)' % (m or '').split(' | P ', 1)[-1][:300] if pm != 'ok' else ' (outside the recorded trigger classes)')),
